@@ -515,6 +515,27 @@ pub fn run(reg: &dyn Registry, ctx: &Ctx) -> Outcome {
                             );
                             break;
                         }
+                        // second stage: G' has now run through `future` (across a block boundary, so counters in the
+                        // image have moved on - possibly wrapped); snapshot it again and compare once more
+                        match roundtrip(*ty, gp.as_ref()) {
+                            Ok((_, mut r2)) => {
+                                let ot2: Vec<Obs> = future.iter().map(|o| apply(&mut twin, o)).collect();
+                                let or2: Vec<Obs> = future.iter().map(|o| apply(&mut r2, o)).collect();
+                                ctx.add("transitions", 2 * future.len() as u64);
+                                if !ot2.iter().any(|o| o.is_panic()) && or2 != ot2 {
+                                    ctx.violation(
+                                        &format!("C11:{}:edited-image-restored-diverges", info.name),
+                                        &format!("{}: G' = the generator restored from an image (state after {}, edited at byte {}) and advanced by {}; deserialize(serialize(G')) returns {:?} under {} where G' returns {:?}", info.name, ops_short(h), first_diff, ops_short(&future), or2.iter().map(|o| o.to_json().to_string().chars().take(40).collect::<String>()).collect::<Vec<_>>(), ops_short(&future), ot2.iter().map(|o| o.to_json().to_string().chars().take(40).collect::<String>()).collect::<Vec<_>>()),
+                                        json!({"kind":"edited-image","type":info.name,"maker":mk.describe(),"ops":ops_json(h),"image":crate::evidence::hex(&im),"advance_first":ops_json(&future)}),
+                                    );
+                                    break;
+                                }
+                            }
+                            Err(e) => {
+                                ctx.violation(&format!("C11:{}:edited-image-roundtrip", info.name), &format!("{}: a generator restored from an image (state after {}, edited at byte {}) and advanced by {} cannot be snapshotted and restored: {}", info.name, ops_short(h), first_diff, ops_short(&future), e), rep());
+                                break;
+                            }
+                        }
                     }
                 }
             })
